@@ -48,6 +48,9 @@ class A(Adapter):
             rows += [("random", 3, 2, False), ("toy_norot", 2, 2, True), ("random", 1, 3, True), ("random", 2, 2, True),
                      ("random", 3, 4, False), ("random", 4, 4, True), ("random", 5, 5, True)]
         out = []
+        # generator-only configurations (C10): more rows of blocks than columns and vice versa, >= 3 rows of blocks
+        c10_only = [("random", 3, 2, False), ("random", 2, 4, False)]
+        rows += [r for r in c10_only if r not in rows]
         for gen, rb, cb, cell in rows:
             def build(gen=gen, rb=rb, cb=cb, cell=cell):
                 g = {"random": lambda: RandomFlatPackGenerator(rb, cb), "toy_rot": ToyFlatPackGeneratorWithRotation,
@@ -59,7 +62,8 @@ class A(Adapter):
                               {"num_rows": R, "num_cols": C, "num_blocks": rb * cb, "cell_dense": cell, "f32": True,
                                "by_actions": by_actions},
                               gen=gen, row_blocks=rb, col_blocks=cb, cell_dense=cell, partner=None,
-                              constant_generator=(gen != "random" or rb * cb == 1)))
+                              constant_generator=(gen != "random" or rb * cb == 1),
+                              **({"only": {"C10"}} if (gen, rb, cb, cell) in c10_only and tier == "quick" else {})))
         return out
 
     # ---- serialisation
